@@ -400,15 +400,27 @@ func (w *World) sinkMethod() *FuncInfo {
 }
 
 func (w *World) sinkMethodUncached() *FuncInfo {
+	// the evaluator method that takes a builder and a value of any type; failing that, the first one with a builder
+	var first *FuncInfo
 	for _, f := range w.compilerMethods() {
 		sig := f.Obj.Type().(*types.Signature)
+		hasBuilder, hasAny := false, false
 		for i := 0; i < sig.Params().Len(); i++ {
 			if namedIs(sig.Params().At(i).Type(), "strings", "Builder") {
-				return f
+				hasBuilder = true
+			}
+			if it, ok := sig.Params().At(i).Type().(*types.Interface); ok && it.NumMethods() == 0 {
+				hasAny = true
 			}
 		}
+		if hasBuilder && hasAny {
+			return f
+		}
+		if hasBuilder && first == nil {
+			first = f
+		}
 	}
-	return nil
+	return first
 }
 
 // truthyMethod: the evaluator method func(interface{}) bool.
